@@ -50,6 +50,7 @@ Verdict(r) ==
                       Fc("RT_body", r.dec_body = r.tree) \o Fc("RT_type", r.dec_type = r.type)
                    \o Fc("HDR_compids", r.hdr49 = r.sender /\ r.hdr56 = r.target) \o Fc("HDR_seqnum", seqOK))
                 \o Fc("RT_consumed", r.consumed = Len(r.bytes)) \o Fc("RT_raw", r.raw_equal)
+                \o Fc("RT_followed", r.dec_msg => r.followed_ok)
                 \o Fc("TOK_wire", n >= 8 /\ wt[1][1] = 8 /\ wt[2][1] = 9 /\ wt[3][1] = 35 /\ wt[n][1] = 10
                                    /\ SubSeq(wt, 8 + r.extra_hdr, n - 1) = FlattenB(r.tree)))]
 ASSUME JsonSerialize(IOEnv.OUT_FILE, [i \in DOMAIN Traces |-> Verdict(Traces[i])])
